@@ -196,6 +196,65 @@ pub fn run_typed<'i, R: RuleType, N: ParsableTypedNode<'i, R> + Pairs<'i, R> + c
     }
 }
 
+/// C19, the counted repetitions as skip types: a DIRECT call of `<N as NeverFailedTypedNode>::parse_with` /
+/// `check_with` (no tracker parameter: the implementations create their own) after the prefix node `P` has been run
+/// through `try_parse_partial_with` on a fresh stack and tracker, so that the call starts at a cursor inside the
+/// input with a possibly non-empty stack.  Entries `nf_parse`, `nf_check`, `nf_default`.  `trk=` is the CALLER's
+/// tracker after the prefix (the call cannot touch it), `pre=` the offset the call started at.
+fn nf_with<'i, I: Input<'i>, R: RuleType, P: pest_typed::TypedNode<'i, R>, N: pest_typed::NeverFailedTypedNode<'i, R>>(
+    entry: &str,
+    input: I,
+) -> String {
+    if entry == "nf_default" {
+        return format!("v=ok\tdbg={}", hex(&format!("{:?}", N::default())));
+    }
+    let mut stack = Stack::new();
+    let mut tracker = Tracker::<'i, R>::new(input);
+    let cur = match P::try_parse_partial_with(input, &mut stack, &mut tracker) {
+        Some((next, _)) => next,
+        None => return "v=prefail".to_string(),
+    };
+    match entry {
+        "nf_parse" => {
+            let (next, node) = N::parse_with(cur, &mut stack);
+            format!(
+                "v=ok\tpre={}\tend={}\tstk={}\ttrk={}\tdbg={}",
+                cur.byte_offset(),
+                next.byte_offset(),
+                show_stack(&stack),
+                show_tracker(tracker),
+                hex(&format!("{:?}", node))
+            )
+        }
+        "nf_check" => {
+            let next = N::check_with(cur, &mut stack);
+            format!("v=ok\tpre={}\tend={}\tstk={}\ttrk={}", cur.byte_offset(), next.byte_offset(), show_stack(&stack), show_tracker(tracker))
+        }
+        _ => "v=badentry".to_string(),
+    }
+}
+
+pub fn run_nf<'i, R: RuleType, P: pest_typed::TypedNode<'i, R>, N: pest_typed::NeverFailedTypedNode<'i, R>>(
+    entry: &str,
+    form: &str,
+    a: usize,
+    b: usize,
+    input: &'i str,
+) -> String {
+    match form {
+        "str" => nf_with::<_, R, P, N>(entry, input.as_input()),
+        "pos" => match Position::new(input, a) {
+            Some(p) => nf_with::<_, R, P, N>(entry, p.as_input()),
+            None => "v=badpos".into(),
+        },
+        "span" => match Span::new(input, a, b) {
+            Some(s) => nf_with::<_, R, P, N>(entry, s.as_input()),
+            None => "v=badspan".into(),
+        },
+        _ => "v=badform".into(),
+    }
+}
+
 fn show_pest_pair<R: pest::RuleType>(p: pest::iterators::Pair<'_, R>, out: &mut String) {
     let sp = p.as_span();
     let _ = write!(out, "({:?} {} {}", p.as_rule(), sp.start(), sp.end());
@@ -232,6 +291,8 @@ pub fn run_pest<R: pest::RuleType, P: pest::Parser<R>>(rule: R, input: &str) -> 
 pub type CaseFn = fn(&str, &str, usize, usize, &str) -> String;
 
 /// The stdin loop of a corpus binary: `<caseno> <gid> <rule> <entry> <form> <a> <b> <hex>`.
+/// Watchdog: a case that does not answer within 6 s is printed as `v=timeout` and the process exits with code 3
+/// (checks/suites.py `run_bins` retries it once in a fresh process before it counts as a timeout).
 pub fn serve(dispatch: fn(&str, &str) -> Option<(CaseFn, Option<fn(&str) -> String>)>) {
     use std::io::BufRead;
     std::panic::set_hook(Box::new(|_| {}));
